@@ -52,6 +52,9 @@ pub struct ArpCfg {
     /// the first `lossy` ARP frames get a deliver/drop choice; usize::MAX with drop_all
     pub lossy: usize,
     pub drop_all: bool,
+    /// burst loss ahead of the choices: the first `n` ARP requests (false) or replies (true)
+    /// are lost without a choice, so that only a late exchange of the retry budget can succeed
+    pub burst: Option<(bool, usize)>,
     /// machine 2 first resolves this address itself (its request is overheard by everybody) and
     /// machine 0 starts resolving only 5 ms later
     pub overheard_first: Option<Ipv4Address>,
@@ -187,12 +190,25 @@ impl Scenario for ArpSc {
         let drop_all = cfg.drop_all;
         let mut seen = 0usize;
         let arp_type = TypeId::of::<Arp>();
+        let burst = cfg.burst;
+        let mut burst_seen = 0usize;
         sched::install_wire_hooks(move |f| {
             if f.protocol != arp_type {
                 return Verdict::Deliver;
             }
             if drop_all {
                 return Verdict::Drop;
+            }
+            if let Some((replies, n)) = burst {
+                let is_reply = ArpPacket::from_bytes(f.bytes.iter().cloned())
+                    .map(|p| p.oper == Operation::Reply)
+                    .unwrap_or(false);
+                if is_reply == replies {
+                    burst_seen += 1;
+                    if burst_seen <= n {
+                        return Verdict::Drop;
+                    }
+                }
             }
             seen += 1;
             if seen <= lossy {
@@ -353,6 +369,7 @@ pub fn cfgs(tier: &str) -> Vec<(ArpCfg, Bounds)> {
         resolver1: false,
         lossy: k,
         drop_all: false,
+        burst: None,
         overheard_first: None,
     };
     let mut v = vec![];
@@ -403,6 +420,27 @@ pub fn cfgs(tier: &str) -> Vec<(ArpCfg, Bounds)> {
         c.resolvers0 = 2;
         c.lossy = 2;
     });
+    // only a late exchange of the retry budget gets through (RESEND_TRIES = 10)
+    let js: Vec<usize> = if q { vec![5, 8, 9, 10] } else { (1..=11).collect() };
+    for replies in [false, true] {
+        for &j in &js {
+            for resolvers in [1usize, 2] {
+                // every resolve call runs its own retry loop, so r concurrent callers put r
+                // requests (and get r replies) per round
+                let n = j * resolvers;
+                let name = format!(
+                    "burst loss: the first {n} ARP {} lost ({j} rounds), {resolvers} resolver(s)",
+                    if replies { "replies" } else { "requests" }
+                );
+                add(&name, &|c| {
+                    c.burst = Some((replies, n));
+                    c.resolvers0 = resolvers;
+                    c.lossy = if q { 1 } else { 2 };
+                    c.expect = Some(1);
+                });
+            }
+        }
+    }
     if !q {
         add("/0 subnet (everything local), 4 machines, 3 resolvers", &|c| {
             c.machines = 4;
